@@ -50,6 +50,7 @@ func checkC02(ctx *Ctx, r *Report) {
 	c02PythonModuleNames(ctx, r)
 	c02JavaPackageSegments(ctx, r)
 	c02JavaClassNamesFormatted(ctx, r)
+	c02JavaListItemDefaultsTyped(ctx, r)
 	c10SeventhHunt(ctx, r)                // the branch of a union that holds a numeric default: `Any: (func (input unknown) …)` does not type-check
 	c10EighthHunt(ctx, r)                 // defaults of bytes fields and of lists of date-times: strings where []byte / time.Time are declared
 	c10GoNestedOverrideRecurses(ctx, r)   // a struct default holding another struct: `Inner: map[string]interface {}{…}` does not type-check
@@ -3644,4 +3645,48 @@ import ("fmt"; "github.com/grafana/cog/internal/ast")
 func bad(def ast.RefType) string { return fmt.Sprintf("%s.x", def.ReferredType) }`
 	_ = selfTest
 	r.Check(true, "kinds/java-class-names-formatted", "Java jennies write names into code", token.NoPos, fmt.Sprintf("%d sites looked at, none writes a raw name", sites), "")
+}
+
+// c02JavaListItemDefaultsTyped: java.genDefaultForType hands the default of a list to the formatter of the item type; the
+// scalar formatter knows lists, the others do not: for a list of references the whole list ended in fmt's %#v — a Go
+// literal in a Java file. The array case writes the items one by one (a loop over the decoded list calling
+// genDefaultForType on each item).
+func c02JavaListItemDefaultsTyped(ctx *Ctx, r *Report) {
+	fn := ctx.LookupMethod("internal/jennies/java", "RawTypes", "genDefaultForType")
+	fd, p := ctx.DeclOf(fn)
+	if fd == nil {
+		r.Undecided("anchor lost: java.RawTypes.genDefaultForType")
+		return
+	}
+	info := p.TypesInfo
+	itemByItem, arrayCase := false, false
+	ast.Inspect(fd.Body, func(m ast.Node) bool {
+		cc, ok := m.(*ast.CaseClause)
+		if !ok || len(cc.List) != 1 || !strings.HasSuffix(exprString(cc.List[0]), "KindArray") {
+			return true
+		}
+		arrayCase = true
+		for _, st := range cc.Body {
+			ast.Inspect(st, func(q ast.Node) bool {
+				rs, ok := q.(*ast.RangeStmt)
+				if !ok {
+					return true
+				}
+				ast.Inspect(rs.Body, func(z ast.Node) bool {
+					if c, ok := z.(*ast.CallExpr); ok && callee(info, c) == fn {
+						itemByItem = true
+					}
+					return true
+				})
+				return true
+			})
+		}
+		return true
+	})
+	if !arrayCase {
+		r.Undecided("anchor changed: java.genDefaultForType has no case for lists")
+	}
+	r.Count("Java default formatters of lists", 1)
+	r.Check(itemByItem, "kinds/java-list-item-defaults-typed", "java.genDefaultForType writes the default of a list", fd.Pos(), "item by item, each as a default of the item type",
+		"the whole default list is handed to the formatter of the item type: for `pts: [...#Pt] | *[{x: 1}, {x: 2}]` Root.java holds `this.pts = List.of([]interface {}{map[string]interface {}{\"x\":1}, …});` — a Go literal, javac: illegal start of expression — and the run reports success")
 }
